@@ -23,7 +23,35 @@ from delphin import semi as dsemi  # noqa: E402
 from delphin import tfs as dtfs  # noqa: E402
 
 
+def from_py(x):
+    """the NAME of a non-string identifier (int 3 -> '3', tuple ('a', 1) -> '(a,1)'); strings are their own name"""
+    if isinstance(x, str):
+        return x
+    if isinstance(x, tuple):
+        return "(" + ",".join(from_py(y) for y in x) + ")"
+    return str(x)
+
+
+def to_py(name):
+    """inverse of from_py on the names the non-string block uses: '-?digits' is an int, '(..,..)' a tuple"""
+    if len(name) >= 2 and name[0] == "(" and name[-1] == ")":
+        return tuple(to_py(y) for y in name[1:-1].split(",")) if len(name) > 2 else ()
+    if name.lstrip("-").isdigit():
+        return int(name)
+    return name
+
+
+# identifiers handed to the real code: the name itself, or (cases with "ids") the object the name stands for
+_DEC = [lambda name: name]
+
+
+def pyid(a):
+    return _DEC[0](uncps(a))
+
+
 def cps(s):
+    if not isinstance(s, str):
+        s = from_py(s)
     return [ord(c) for c in s]
 
 
@@ -569,6 +597,64 @@ def semi_api_cases():
                 yield via_case(which, base[:pos] + fent + base[pos:], follow, ["fault:" + fname])
 
 
+NONSTR_MODES = {
+    # symbolic name -> NAME of the identifier (see to_py): ints, ints and strings mixed, tuples
+    "int": {"top": "0", "a": "1", "b": "2", "x": "3", "y": "4", "z": "5", "w": "6", "v": "7", "q": "9"},
+    "mixed": {"top": "top", "a": "1", "b": "b", "x": "3", "y": "y", "z": "5", "w": "w", "v": "7", "q": "9"},
+    "mixed_q": {"top": "0", "a": "a", "b": "2", "x": "x", "y": "4", "z": "z", "w": "6", "v": "v", "q": "nope"},
+    "tuple": {"top": "(t)", "a": "(a,1)", "b": "(b)", "x": "(x,2)", "y": "(y)", "z": "(z,0)", "w": "(w,w)",
+              "v": "(v)", "q": "(q,9)"},
+}
+
+
+def nonstr_cases():
+    """node identifiers that are NOT strings (ints, ints and strings mixed, tuples), parents as tuples: every
+    documented invalid entry before / between / after valid entries, the batch failing only in a LATER
+    insertion wave (x joins in wave 1, y in wave 2), followed by a valid call, the same batch without the
+    invalid entry, a rejected data batch and __setitem__.  With such identifiers the rejection surfaces as
+    TypeError (', '.join of the ids in the message) or HierarchyError: the kind is recorded, not demanded;
+    after ANY exception the full query set must be as before, and accepted calls behave as with strings."""
+    faults = {
+        "unknown_parent": [["z", ["q"]]], "late_unknown": [["z", ["y", "q"]]], "unknown_after_x": [["z", ["x", "q"]]],
+        "cycle": [["z", ["w"]], ["w", ["z"]]], "cycle_anchored": [["z", ["w", "a"]], ["w", ["z"]]],
+        "cycle_late": [["z", ["w", "y"]], ["w", ["z"]]], "self_parent": [["z", ["z"]]], "self_late": [["z", ["z", "x"]]],
+        "redundant_old": [["z", ["a", "b"]]], "redundant_wave2": [["z", ["x", "a"]]], "redundant_wave3": [["z", ["y", "a"]]],
+        "redundant_rev": [["z", ["top", "y"]]], "redundant_chain": [["z", ["y"]], ["w", ["z", "x"]]],
+        "duplicate": [["a", ["top"]]], "duplicate_leaf": [["b", ["x"]]], "dup_top": [["top", ["a"]]],
+        "empty": [["z", []]],
+    }
+    valid = [["x", ["a"]], ["y", ["x", "b"]]]
+    for mode, nm in NONSTR_MODES.items():
+        def ren(sub):
+            return [[nm[n], T(*[nm[p] for p in ps])] for n, ps in sub]
+
+        def mk(init, steps, tags):
+            c = mk_case("multi", nm["top"], init, steps, ["nonstr", "nonstr:" + mode] + tags, extra_u=[nm["q"], nm["z"]])
+            c["ids"] = mode
+            return c
+        base = ren([["a", ["top"]], ["b", ["a"]]])
+        for fname, fent in faults.items():
+            for pos in range(len(valid) + 1):
+                batch = ren(valid[:pos] + fent + valid[pos:])
+                steps = [upd(base, [[nm["a"], 10]]), upd(batch, [[nm["x"], 1]] if pos == 1 else None),
+                         upd(ren([["v", ["b"]]])), upd(ren(valid), [[nm["y"], 2], [nm["a"], 3]]),
+                         upd(None, [[nm["a"], 4], [nm["q"], 5], [nm["x"], 6]]), setitem(nm["q"], 7), setitem(nm["x"], 8),
+                         upd(batch)]
+                yield mk(None, steps, ["fault:" + fname])
+        # data for an unknown identifier next to a later-wave batch; the constructor with an invalid batch
+        yield mk(None, [upd(base), upd(ren(valid), [[nm["x"], 1], [nm["q"], 2]]), upd(ren(valid), [[nm["y"], 1]])],
+                 ["fault:data_unknown"])
+        yield mk(upd(ren([["a", ["top"]], ["x", ["a"]], ["z", ["x", "q"]]])), [], ["ctor"])
+        yield mk(upd(base, [[nm["b"], 1]]), [upd(ren(valid + [["z", ["y", "a"]]])), upd(ren(valid))], ["ctor"])
+    # mixed: parents given as a STRING name string identifiers only
+    nm = NONSTR_MODES["mixed"]
+    c = mk_case("multi", "top", None, [upd([["1", T("top")], ["b", S("top")], ["w", S("b top")], ["y", S("b  w")]]),
+                                       upd([["3", T("1", "b")], ["5", S("3")]]), upd([["3", T("1", "b")]])],
+                ["nonstr", "nonstr:mixed", "string_parents"])
+    c["ids"] = "mixed"
+    yield c
+
+
 EXH_CAND = ["top", "a", "b", "x", "y", "q"]
 
 
@@ -612,7 +698,7 @@ def exhaustive_cases(rng, tier):
 def py_spec(p):
     if "s" in p:
         return uncps(p["s"])
-    return tuple(uncps(x) for x in p["t"])
+    return tuple(pyid(x) for x in p["t"])
 
 
 def py_sub(sub):
@@ -620,7 +706,7 @@ def py_sub(sub):
         return None
     d = {}
     for i, p in sub:
-        d[uncps(i)] = py_spec(p)
+        d[pyid(i)] = py_spec(p)
     return d
 
 
@@ -629,7 +715,7 @@ def py_data(data):
         return None
     d = {}
     for i, v in data:
-        d[uncps(i)] = v
+        d[pyid(i)] = v
     return d
 
 
@@ -689,7 +775,7 @@ def rebuilt_eq(h):
 
 def construct(case):
     cls = case["cls"]
-    top = uncps(case["top"])
+    top = pyid(case["top"])
     init = case.get("init")
     if case.get("via"):
         return construct_via(case["via"])
@@ -712,7 +798,15 @@ def construct(case):
 
 
 def run_history(case):
-    U = [uncps(u) for u in case["U"]]
+    _DEC[0] = to_py if case.get("ids") else (lambda name: name)
+    try:
+        return run_history_(case)
+    finally:
+        _DEC[0] = lambda name: name
+
+
+def run_history_(case):
+    U = [pyid(u) for u in case["U"]]
     try:
         h = construct(case)
     except Exception as e:  # noqa: BLE001
@@ -721,7 +815,7 @@ def run_history(case):
     for st in case["steps"]:
         try:
             if st["k"] == "set":
-                h[uncps(st["id"])] = st["val"]
+                h[pyid(st["id"])] = st["val"]
             else:
                 h.update(py_sub(st["sub"]), py_data(st["data"]))
             r = "ok"
@@ -883,8 +977,8 @@ def normalised_case(case):
 
 class C17(Check):
     pid = "C17"
-    props_modules = ["Verif.C17.Props", "Verif.C17.PropsData", "Verif.C17.Translated"]
-    quick_cases = 650
+    props_modules = ["Verif.C17.Props", "Verif.C17.PropsData", "Verif.C17.Translated", "Verif.C17.TranslatedAnc"]
+    quick_cases = 550
     thorough_cases = 15000
     rule = ("histories of 0-8 update/__setitem__ calls on MultiHierarchy (identity normaliser), tfs.TypeHierarchy and "
             "semi's hierarchy (str.lower), MultiHierarchy/TypeHierarchy with a caller-supplied normaliser (str.upper, "
@@ -899,6 +993,9 @@ class C17(Check):
             "call and one unknown identifier first/middle/last, normal-form and other spellings, two spellings of one "
             "key; batches rejected for a hierarchy reason whose data is valid; the constructor's data argument with "
             "hierarchy None / {} / a batch; __setitem__/__getitem__ on unknown and differently spelled identifiers; "
+            "NON-STRING identifiers (ints, ints and strings mixed, tuples; parents as tuples): every invalid entry "
+            "before/between/after valid entries, failing only in a later insertion wave; the exception kind (TypeError "
+            "from message formatting or HierarchyError) recorded, not demanded; "
             "exhaustive: all batches of <= 2 entries over 2 new names with parents any <=2-subset of 6 names. "
             "After the constructor and after EVERY call the full query set (incl. h[id] of every identifier, items, "
             "top, == with a rebuilt hierarchy). Non-trivial = at least one call; distinct by JSON text.")
@@ -907,7 +1004,7 @@ class C17(Check):
         "str.split() splits exactly on the model's spaceCodes (pinned against the live code for every code point "
         "< U+3001 by c17_pins; no code point above is generated)",
         "data values are integers (the property/synopsis lists SemI stores are observed as 1000 + their length); "
-        "identifiers are strings (non-string identifiers of MultiHierarchy are not generated)",
+        "identifiers are strings, or (deterministic block) ints/tuples that the model sees under injective string names",
         "the caller-supplied normaliser is str.upper on ASCII identifiers (model: Char.toUpper, pinned by c17_pins_upper)",
         "atomicity is true of the pure model by construction; it is checked on the real code only (oracle: full query "
         "set and a snapshot of _hier/_loer/_data after every rejected call equal those before it)",
@@ -922,7 +1019,12 @@ class C17(Check):
         from .common import py2lean as P
         from delphin import hierarchy
         al = P.Dict(P.STR, P.Lst(P.STR))
-        return [P.Spec(hierarchy._get_eligible, "get_eligible", [("hier", al), ("sub", al)], P.Lst(P.STR))]
+        return [P.Spec(hierarchy._get_eligible, "get_eligible", [("hier", al), ("sub", al)], P.Lst(P.STR)),
+                # recursion with explicit fuel; the result is a set (duplicate-free list)
+                P.Spec(hierarchy._ancestors, "ancestors", [("id", P.STR), ("hier", al)], P.Set(P.STR)),
+                # `id` only occurs in the (unevaluated) message of the HierarchyError
+                P.Spec(hierarchy._validate_parentage, "validate_parentage",
+                       [("id", P.UNUSED), ("parents", P.Lst(P.STR)), ("hier", al)], P.NONE)]
 
     def translations(self):
         """Source translation (TRANSLATOR.md): hierarchy._get_eligible → lean/Verif/Generated/TransC17.lean, proved equal
@@ -1002,6 +1104,7 @@ class C17(Check):
     # ---- cases
     def cases(self, rng, tier, n):
         yield from data_cases()
+        yield from nonstr_cases()
         yield from semi_api_cases()
         yield from placement_cases()
         yield from exhaustive_cases(rng, tier)
@@ -1021,7 +1124,14 @@ class C17(Check):
                 "U": case["U"]}
 
     def model_expected(self, case, impl_res):
-        return [{k: v for k, v in o.items() if k != "_state"} for o in impl_res]
+        out = [{k: v for k, v in o.items() if k != "_state"} for o in impl_res]
+        if case.get("ids"):
+            # the model (over the identifiers' names) says WHICH calls are rejected; the exception kind with
+            # non-string identifiers (TypeError from ', '.join while formatting the message) is observed only
+            for o in out:
+                if isinstance(o["r"], dict) and o["r"].get("err") == "TypeError":
+                    o["r"] = {"err": "HierarchyError"}
+        return out
 
     # ---- oracle
     def oracle(self, case, res):
@@ -1037,7 +1147,9 @@ class C17(Check):
         for k, o in enumerate(res):
             fail = mk(k)
             r = o["r"]
-            if isinstance(r, dict) and r.get("err") != "HierarchyError":
+            allowed = ("HierarchyError", "TypeError") if case.get("ids") else ("HierarchyError",)
+            if isinstance(r, dict) and r.get("err") not in allowed:
+                # (non-string identifiers: building the HierarchyError message may itself raise TypeError)
                 fail("a call raises something other than HierarchyError", r)
             if "q" not in o:
                 continue
@@ -1129,6 +1241,12 @@ class C17(Check):
         def inc(k, d=1):
             c[k] = c.get(k, 0) + d
         inc("class:" + case["cls"])
+        if case.get("ids") and res:
+            for o in res:
+                if isinstance(o.get("r"), dict):
+                    inc("nonstr_rejected_with:%s" % o["r"].get("err"))
+                elif "q" in o:
+                    inc("nonstr_accepted")
         if case.get("via"):
             inc("via_semi:%s:%s" % (case["via"]["which"], "rejected" if res and "q" not in res[0] else "built"))
             for _, pform, _, _ in case["via"]["entries"]:
